@@ -3,9 +3,10 @@ CONSTANTS
   NK = 2
   BatchSet = "mc"
   Callers = {1,2}
-  Ops = {"TRead","Translate","Restart","RApply","RStop","RResume","RCut"}
+  Ops = {"TRead","Translate","Restart","RApply","RRecv","RReassign","RStop","RResume","RCut"}
   Depth = 0
   Recheck = TRUE
+  DropInFlight = TRUE
   MaxSeq = 4
   MaxRestart = 2
   Sample = FALSE
